@@ -117,7 +117,11 @@ def run_case(case):
                     v(f"desync:{a['kind']}:{fam}", f"{name}: {a}", ctx)
             if wl.net.busy_events:
                 v(f"concurrent-io-on-one-stream:{fam}", f"{wl.net.busy_events} overlapping read/write calls on one network stream", ctx)
-            c = pool_counts(wl.pool)
+            try:
+                c = pool_counts(wl.pool)
+            except Exception as exc:  # noqa
+                c = {}
+                v(f"internal-error:{fam}:repr(pool):{exc_name(exc)}", f"repr(pool) raised {exc!r}", ctx)
             if c.get("req_active") or c.get("req_queued"):
                 v(f"request-still-counted:{fam}", f"{c}", ctx)
             if s.switches:
